@@ -287,6 +287,14 @@ class C08Monitor(BookTracker):
                     chk("get_n_buy_order(time)", mkt.get_n_buy_order(tq), ref.nb[tq])
                     chk("get_n_sell_order(time)", mkt.get_n_sell_order(tq), ref.ns[tq])
                     chk("list-form(time)", mkt.get_market_prices([tq, t]), [ref.mp[tq], ref.mp[t]])
+                # list-form getters with other valid forms of the time argument: descending down to step 0,
+                # strided, tuples
+                chk("get_executed_volumes(desc)", mkt.get_executed_volumes(range(t, -1, -1)), ref.vol[: t + 1][::-1])
+                chk("get_market_prices(desc)", mkt.get_market_prices(range(t, -1, -1)), ref.mp[: t + 1][::-1])
+                chk("get_n_buy_orders(stride)", mkt.get_n_buy_orders(range(0, t + 1, 2)), ref.nb[: t + 1][::2])
+                chk("get_last_executed_prices(tuple)", mkt.get_last_executed_prices(tuple(range(max(0, t - 3), t + 1))),
+                    ref.last[max(0, t - 3): t + 1])
+                chk("get_mid_prices(desc-stride)", mkt.get_mid_prices(range(t, -1, -3)), ref.mid[: t + 1][::-1][::3])
                 if t in (100, 101, 200, 201):
                     res.count("class/compared_across_storage_chunk")
         except Exception as e:  # noqa
